@@ -52,6 +52,29 @@ def build_plain_single_end(r, case):
         base = origin + r.randint(0, 3 * h)
         starts = [base + r.randint(0, 60) for _ in range(r.randint(1, 4))]
         ends = [base + r.randint(h - 120, 3 * h) for _ in range(r.randint(1, 5))]
+        if r.random() < 0.7:
+            # gadget: old short molecule A, long molecule B, young short molecule C, then a long read D whose END advances the position so far
+            # that A and C may leave while B (opened before C) may not; a late short read B2 joins B through its end coordinate
+            x = base + r.randint(0, 40)
+            L = r.randint(h // 2, h - 1)
+            pend = x + 10 + L + h - r.randint(1, max(2, L - 30))
+            pend = max(pend, x + 31 + h)
+            dstart = pend - r.randint(max(5, pend - (x + 10 + L) + 6), h - 1) if pend - (x + 10 + L) + 6 < h - 1 else None
+            cell_g = r.choice([1, 2])
+            strand_g = r.random() < 0.2
+            specs = [(x, x + r.randint(3, 9), 'GAA'), (x + 10, x + 10 + L, 'GCC'), (x + 20, x + r.randint(25, 40), 'GGG')]
+            if dstart is not None and dstart > x + 40:
+                specs.append((dstart, pend, 'GTT'))
+                b2s = r.randint(dstart + 1, x + 10 + L - 3) if dstart + 1 < x + 10 + L - 3 else None
+                if b2s:
+                    specs.append((b2s, x + 10 + L, 'GCC'))
+            for (a, b, umi) in specs:
+                if b - a < 3 or b - a >= h or b >= ln:
+                    continue
+                recs.append({'name': F.qname(rid, case['i'] + 1, cell_g, umi), 'flag': 16 if strand_g else 0, 'tid': 0, 'pos': a, 'mapq': 60,
+                             'cigar': f'{b - a}M', 'seq': ref[a:b], 'qual': [30] * (b - a), 'tags': {}, 'next_tid': -1, 'next_pos': -1})
+                truths[rid] = {'id': rid, 'key': ('single', rid), 'span': (a, b), 'valid': True}
+                rid += 1
         for _ in range(r.randint(3, 12)):
             reverse = r.random() < 0.25
             if r.random() < 0.55:
@@ -74,7 +97,7 @@ def build_plain_single_end(r, case):
 
 
 def build_input(r, case):
-    if case['i'] % 5 == 4:
+    if case['i'] % 4 == 3:
         return build_plain_single_end(r, case)
     method = r.choice(['nla', 'nla', 'chic', 'plain'])
     cache = r.choice([1000, 2000, 10000])
@@ -266,8 +289,12 @@ def run_case(case):
     for pooling in (0, 1):
         ev, em, arr = execute(None, pooling)
         ref_parts[pooling] = decide(None, pooling, ev, em, arr, None, 'generator')
+    single_end_plain = any(t['key'][0] == 'single' for t in truths.values())
     if d == 0:
-        if ref_parts[0] != ref_parts[1]:
+        # The span based equality of the plain Fragment class (start OR end coincide) is not an equivalence relation: pooling 0 compares a
+        # candidate with every member, pooling 1 with the molecule's aggregated span, so on crafted single-end inputs the two legitimately group
+        # differently. Agreement of the pooling methods is demanded where grouping is well defined (site based classes, paired plain data).
+        if not single_end_plain and ref_parts[0] != ref_parts[1]:
             acc.violate('pooling-methods-disagree', f'never-eject partitions of pooling 0 and 1 differ ({cfg})', {'config': cfg})
         acc.count('oracle:truth_compared')
         if method != 'plain' and set(map(frozenset, ref_parts[1])) != truth_part:
